@@ -209,7 +209,7 @@ def run_is_valid_cer(expr):
 _VERSION_NOW = [None]
 
 
-def run_versions(make_coro, rc_by_version, sequence, hints=None, fc_by_version=None):
+def run_versions(make_coro, rc_by_version, sequence, hints=None, fc_by_version=None, packages_by_version=None):
     """ONE token logic provider holding user-style RC evaluators for two format versions of the same format (answers
     rc_by_version[0] / [1]); the evaluations of `sequence` (version indices) run one after another, the evaluatable data
     handed out by the injected provider carries the version of the evaluation.  returns the list of results"""
@@ -221,6 +221,10 @@ def run_versions(make_coro, rc_by_version, sequence, hints=None, fc_by_version=N
         rc_cls, fc_cls = _method_based(list(rc_by_version[v].keys()), list((fc_by_version or [{}, {}])[v].keys()))
         rc = rc_cls(dict(rc_by_version[v]))
         rc.edifact_format_version = versions[v]
+        if packages_by_version is not None:
+            pr = DictBasedPackageResolver(dict(packages_by_version[v]))
+            pr.edifact_format, pr.edifact_format_version = I.FMT, versions[v]
+            evaluators.append(pr)
         if fc_by_version is not None:
             fc = fc_cls(dict(fc_by_version[v]))
             fc.edifact_format_version = versions[v]
